@@ -1,2 +1,3 @@
 import Hcl.Util.SExp
 import Hcl.Graph.TopoSort
+import Hcl.Model.Eval
